@@ -513,6 +513,23 @@ class SymArray(_nd):
     def __array_finalize__(self, obj):
         pass
 
+    # `a *= b` on a concrete float array with a symbolic operand cannot write Sym objects into float storage: python rebinds the name to
+    # whatever __imul__ returns, so return a fresh symbolic array (aliases of `a` do not see the update: only local temporaries do this in trimesh)
+    def _inplace(name, op):
+        def f(self, o):
+            if rd(self) != object and rd(self).kind == "f" and has_sym(o) and type(self) is SymArray:
+                return op(self, o)
+            return getattr(_nd, name)(self, o)
+
+        f.__name__ = name
+        return f
+
+    __imul__ = _inplace("__imul__", lambda a, b: a * b)
+    __iadd__ = _inplace("__iadd__", lambda a, b: a + b)
+    __isub__ = _inplace("__isub__", lambda a, b: a - b)
+    __itruediv__ = _inplace("__itruediv__", lambda a, b: a / b)
+    del _inplace
+
     def _set_dtype(self, value):
         _nd.dtype.__set__(self, value)
 
@@ -671,7 +688,19 @@ class SymArray(_nd):
         raise NotEncodable("pickle of symbolic array")
 
     def __deepcopy__(self, memo):
-        return self.copy()
+        r = self.copy()
+        if rd(self) == object:
+            # symbolic scalars are immutable values; any other element (entities, lists, nested arrays) must be copied like numpy does
+            import copy as _cp
+
+            flat = base(r).reshape(-1) if base(r).flags.c_contiguous else None
+            it = flat if flat is not None else None
+            if it is not None:
+                for i in range(len(it)):
+                    v = it[i]
+                    if not isinstance(v, (Sym, SymBool, int, float, bool, str, Fraction, _np.number, type(None))) and not getattr(v, "_is_bv", False):
+                        it[i] = _cp.deepcopy(v, memo)
+        return r
 
 
 def _ser(v):
@@ -1620,7 +1649,7 @@ class NPProxy(types.ModuleType):
     def eye(self, n, M=None, k=0, dtype=float, **kw):
         r = _np.eye(n, M, k, dtype=dtype if not self._float_like(dtype) else _np.int64)
         if core.ENGINE is not None and self._float_like(dtype):
-            return wrap(r.astype(object))
+            return set_sd(wrap(r.astype(object)), _np.dtype(_np.float64 if dtype in (float, None) else dtype))
         return r
 
     def identity(self, n, dtype=float, **kw):
